@@ -48,6 +48,40 @@ def run(chk):
     chk.rule(rid, "every `dyn Target` call result is consumed by .ok()-chain / drop / match, never unwrap/expect/?", floor=6)
     check_sites(chk, rid)
 
+    rid = "R17c"
+    chk.rule(rid, "no `dyn Target` mutation is performed on the failure edge of another `dyn Target` call (a rejected operation is not 'repaired')", floor=6)
+    import cfgq
+    from facts import uses_of
+    facts = chk.facts
+    for b, bb, t, method in ts.dyn_target_sites(facts):
+        res = t["dest"]["l"]
+        holders = {res}
+        for kind, ubb, si, x in uses_of(b, res):
+            if kind == "stmt" and x["rv"]["k"] in ("ref", "use") and not any(isinstance(e, dict) and "v" in e for e in (x["rv"].get("p") or (x["rv"].get("op", {}).get("p") or {})).get("p", [])):
+                holders.add(x["d"]["l"])
+        err_edges = []
+        for sbb, place, adt, tg, other in cfgq.discr_switches_on(facts, b, lambda p, a: a == "std::result::Result" and p["l"] in holders):
+            if "Err" in tg:
+                err_edges.append((tg["Err"], [v for k2, v in tg.items() if k2 != "Err"] + ([other] if other != tg["Err"] else [])))
+        for h in holders:
+            for kind, ubb, si, x in uses_of(b, h):
+                if kind == "call" and (b.callee(x).endswith("::is_err") or b.callee(x).endswith("::is_ok")):
+                    e = cfgq.bool_switch_after_call(b, ubb)
+                    if e:
+                        err_edges.append((e[0], [e[1]]) if b.callee(x).endswith("is_err") else (e[1], [e[0]]))
+        bad = []
+        for etgt, avoid in err_edges:
+            region = b.reachable_from_edges([etgt], avoid=avoid)
+            for b2, bb2, t2, m2 in ts.dyn_target_sites(facts):
+                if b2.name == b.name and bb2 in region and bb2 != bb and m2 in ("target_insert", "target_remove", "target_get_mut"):
+                    bad.append((m2, t2["ln"]))
+        d = {"fn": b.name, "at": "%s:%s" % (b.file, t["ln"]), "method": method, "failure_edges_found": len(err_edges), "mutations_on_failure_edge": bad}
+        chk.instance(rid, d, ok=not bad)
+        if bad:
+            chk.violation(rid, b.file, b.name, "%s failure followed by %s" % (method, bad[0][0]),
+                          "when `dyn Target::%s` is rejected, the code goes on to call `%s` (line %s): a rejected operation no longer leaves the target "
+                          "unchanged" % (method, bad[0][0], bad[0][1]), detail=d, loc=d["at"])
+
     rid = "R17b"
     chk.rule(rid, "Runtime::resolve: root target_get Err and Ok(None) both end in Terminate::Error before Program::resolve", floor=2)
     b = chk.anchor(RUNTIME_RESOLVE, rid)
